@@ -343,3 +343,14 @@ Proof.
   - destruct H as (_ & _ & ->). reflexivity.
   - destruct H as (_ & Hg & ->). destruct (getw_pos _ _ _ Hg) as (j & -> & _). cbn. apply set_nth_length.
 Qed.
+
+(** * No worker touches a dead task block *)
+
+Theorem no_access_after_return c scr s :
+  good c -> reachable c scr s ->
+  bad s = false
+  /\ Forall (fun w => any_pre w = true -> pre_dec (cur s) w = true /\ alive s = true) (ws s).
+Proof.
+  intros G R. pose proof (inv_reachable _ _ _ G R) as I. split; [apply I|].
+  eapply Forall_impl; [|exact (I_wf s I)]. intros w. apply wf_pre.
+Qed.
